@@ -6,16 +6,6 @@ namespace Compress.Proofs.BrImpl
 open Compress Compress.Brotli Compress.Brotli.Impl Compress.Window Compress.Proofs.Window
 open Compress.Proofs.BrCut (cmdStep DistInv readCommandsAuto cmdContAuto)
 
-/-- under the cap, the specification cannot have failed here. -/
-theorem After.absurd {sd : ByteArray} {ws : Nat} {res : Except Err Cmd × St} {lst : Bool} {B0 B : Nat}
-    {del : List UInt8} {r : Except BErr Unit × State} {e' : Err} {st' : St} (hres : res = (.error e', st'))
-    (hc : ¬ B0 + st'.out.size < 2 ^ 24) : After sd ws res lst B0 B del r := by
-  subst hres
-  unfold After
-  dsimp only
-  intro h
-  exact (hc h).elim
-
 section
 variable {sd : ByteArray} {ws : Nat} {h : Header} {lst : Bool} {B0 : Nat} {c0 : Cmd} {st0 : St}
 
@@ -102,12 +92,6 @@ theorem dist_tail (hsd : sd.size = 122784) (cx : Cx sd ws h lst B0 c0 st0) {s : 
 def distUpd (s : State) (r : BR) (bd : BlockDec) (sym : Nat) (d : Int) : State :=
   { s with rd := r, distBlk := bd, distMapOff := 4 * bd.type0, distZero := decide (sym = 0), dist := d.toNat }
 
-theorem distHead_exhausted (h : Header) (c : Cmd) (cl : Nat) (st : St) (h1 : c.distB.ntypes < 2)
-    (h0 : c.distB.count = 0) : distHead h c cl false st = (.error .corrupt, st) := by
-  unfold distHead
-  simp only [Bool.false_eq_true, if_false]
-  rw [Dec_bind_apply, nextInBlock_exhausted _ _ h1 h0]
-
 /-- `readDistance`. -/
 theorem phase_dist (hsd : sd.size = 122784) (cx : Cx sd ws h lst B0 c0 st0) {s : State} {st : St} {c : Cmd}
     {del : List UInt8} {f B : Nat} {cl : Nat} {iz : Bool}
@@ -134,17 +118,8 @@ theorem phase_dist (hsd : sd.size = 122784) (cx : Cx sd ws h lst B0 c0 st0) {s :
     exact chain'
   | false =>
     rw [if_neg (by rw [hiz]; decide)] at hdl
-    by_cases hx : c.distB.ntypes < 2 ∧ c.distB.count = 0
-    · -- excluded by the cap
-      rw [BrCut.bind_err_eq (distHead_exhausted h c cl st hx.1 hx.2)] at chain
-      refine After.absurd (res_err cx.nd cx.inv0 chain) ?_
-      obtain ⟨cb, _, _, cd⟩ := cx.cap0
-      have := cd (by rw [← hD]; exact hx.1)
-      rw [← hD, hx.2] at this
-      have := tr.size_le
-      omega
-    · have hx' : c.distB.ntypes < 2 → c.distB.count ≠ 0 := fun a b => hx ⟨a, b⟩
-      rcases (dist_sim m.cr m.dpos hcl h2 hx').cases st with ⟨a, b, k, hk, hxm, hym, hR⟩ | ⟨e, r, e', st', hxm, hym, he, ho⟩
+    ·
+      rcases (dist_sim m.cr m.dpos hcl h2).cases st with ⟨a, b, k, hk, hxm, hym, hR⟩ | ⟨e, r, e', st', hxm, hym, he, ho⟩
       · obtain ⟨bd, sym, d⟩ := a
         obtain ⟨c3, dsym, dq⟩ := b
         obtain ⟨hnext, hc3, hsym, hdq⟩ := hR
